@@ -1,11 +1,70 @@
-(* C12 — filter/breakpoint commands accumulate alternatives and exclusions. *)
-From WD Require Import Base Wire Conn Color Matcher MatcherParse MatcherProofs.
+(* C12 — filter/breakpoint commands accumulate alternatives and exclusions.
+   The state the tool holds after a command is  simplify (join (parse TEXT) cur)  (cur unchanged
+   when TEXT does not parse).  Proofs: MatcherProofs.v (one step), JoinSteps.v (any number of steps). *)
+From WD Require Import Base Wire Conn Color Matcher MatcherParse MatcherProofs JoinSteps.
 Open Scope Z_scope.
 
-(* one command, current matcher and new matcher both non-constant: alternatives join the existing
-   alternatives (always-true ones are dropped as soon as a specific one is present), exclusions
-   join the existing exclusions; a message is selected iff some alternative and no exclusion
-   matches *)
+(* ---- any number of commands -------------------------------------------------------------------- *)
+(* EXACT, no side condition: reading the accumulator (a constant, or alternatives + exclusions) off
+   the matcher the tool holds commutes with every command, so after any sequence of command texts a
+   message is selected iff it matches some accumulated alternative and no accumulated exclusion,
+   where the accumulator evolves by acc_step (JoinSteps.v: replace when the current one is a constant
+   or the new one is literally a constant; otherwise new alternatives in front of the old ones,
+   literal `*` dropped when a specific alternative is present, new exclusions in front of the old
+   ones; then constant folding: settle) *)
+Theorem C12_run_exact : forall ts cur0,
+  abs (fold_left cmd ts cur0) = fold_left (lift acc_step) (map parsed ts) (abs cur0).
+Proof. exact run_texts_exact. Qed.
+Print Assumptions C12_run_exact.
+
+Theorem C12_run_selects : forall ts cur0 v,
+  matches (fold_left cmd ts cur0) v = sel_acc (fold_left (lift acc_step) (map parsed ts) (abs cur0)) v.
+Proof. exact run_texts_sound. Qed.
+Print Assumptions C12_run_selects.
+
+(* the plain reading of the property text: for commands none of whose parts folds to a constant
+   (PlainCmd; resets `!` and literal constants included) the tool's lists are exactly the lists
+   obtained by appending, elementwise simplified ... *)
+Theorem C12_plain_accumulates : forall ts b v,
+  Forall PlainOpt (map parsed ts) ->
+  matches (fold_left cmd ts (MAlways b)) v
+  = sel_raw (fold_left (lift raw_step) (map parsed ts) (AConst b)) v.
+Proof. exact run_texts_raw_sound. Qed.
+Print Assumptions C12_plain_accumulates.
+
+(* ... and that raw accumulator is, over a run of accumulating commands, all alternatives (minus
+   literal `*`) and all exclusions given so far *)
+Theorem C12_closed_form : forall ps a e,
+  Forall Accumulating ps -> ps <> [] ->
+  fold_left raw_step ps (ALists a e) = ALists (star_or (dropstar (alts_of ps ++ a))) (excls_of ps ++ e).
+Proof. exact raw_run_closed. Qed.
+Print Assumptions C12_closed_form.
+
+(* the parts kept from earlier commands are never altered by later ones *)
+Theorem C12_kept_parts_stable : forall cur a e,
+  Good cur -> abs cur = ALists a e -> map simplify a = a /\ map simplify e = e.
+Proof. exact good_acc_stable. Qed.
+Print Assumptions C12_kept_parts_stable.
+
+(* a matcher that fails to parse leaves the current one exactly as it was *)
+Theorem C12_parse_error_keeps : forall cur t e m, parse t = Raise e m -> cmd cur t = cur.
+Proof. exact cmd_unparsed. Qed.
+
+(* `*` as an alternative: "no restriction" — every earlier alternative is subsumed (and does not
+   come back when the next specific alternative arrives), the exclusions stay *)
+Theorem C12_star_alternative : forall a e p,
+  always p = None ->
+  existsb (fun x => is_always true (simplify x)) (dropstar (fst (as_list p))) = true ->
+  existsb (fun n => is_always true (simplify n)) (snd (as_list p) ++ e) = false ->
+  acc_step (ALists a e) p =
+  match dropbang (map simplify (snd (as_list p) ++ e)) with
+  | [] => AConst true
+  | e3 => ALists [MAlways true] e3
+  end.
+Proof. exact star_alternative_wipes. Qed.
+Print Assumptions C12_star_alternative.
+
+(* ---- one command ----------------------------------------------------------------------------------- *)
 Theorem C12_join_accumulates : forall new old v,
   always old = None -> always new = None ->
   let '(op, on) := as_list old in
@@ -16,24 +75,18 @@ Theorem C12_join_accumulates : forall new old v,
 Proof. exact join_accumulates. Qed.
 Print Assumptions C12_join_accumulates.
 
-(* a matcher given while the current one is `*` or `!` replaces it; `!` (or `*`) given replaces too *)
+(* a matcher given while the current one is `*` or `!` replaces it; `!` (or a literal `*`) given replaces too *)
 Theorem C12_join_replaces : forall new old,
   (exists b, old = MAlways b) \/ (exists b, new = MAlways b) -> join new old = new.
 Proof. exact join_replaces. Qed.
 Print Assumptions C12_join_replaces.
 
-(* the alternatives/exclusions kept from earlier commands keep their meaning: they are already
-   simplified and simplification is idempotent *)
-Theorem C12_kept_parts_stable : forall m, simplify (simplify m) = simplify m.
-Proof. exact simplify_idempotent. Qed.
-Print Assumptions C12_kept_parts_stable.
-
-(* non-vacuity: three commands; `*` drops out when a specific alternative arrives *)
-Definition cmd (cur : mt) (t : string) : mt :=
-  match parse (s2l t) with Ok p => simplify (join p cur) | Raise _ _ => cur end.
+(* ---- non-vacuity ------------------------------------------------------------------------------------ *)
 Example C12_ex :
-  mshow false (cmd (cmd (cmd (MAlways true) "wl_pointer ! .motion") ".commit ! .frame") "(") =
-  s2l "[*.commit(*), [wl_pointer.*(*), *.*(*=wl_pointer)] ! *.frame(*), *.motion(*)]"
-  /\ mshow false (cmd (cmd (MAlways true) "! .motion") "wl_surface.attach") = s2l "[wl_surface.attach(*) ! *.motion(*)]"
-  /\ cmd (cmd (MAlways true) "wl_pointer") "!" = MAlways false.
+  forallb plain_optb (map parsed ex_texts) = true
+  /\ mshow false (fold_left cmd ex_texts (MAlways true))
+     = s2l "[wl_surface.attach(*), *.commit(*), [wl_pointer.*(*), *.*(*=wl_pointer)] ! *.enter(*), *.frame(*), *.motion(*)]"
+  /\ fold_left cmd (ex_texts ++ [s2l "!"]) (MAlways true) = MAlways false
+  /\ mshow false (fold_left cmd [s2l "wl_pointer ! .motion"; s2l "*"; s2l "wl_surface"] (MAlways true))
+     = s2l "[wl_surface.*(*), *.*(*=wl_surface) ! *.motion(*)]".
 Proof. vm_compute. repeat split. Qed.
